@@ -212,7 +212,9 @@ def uncompared_fields(chk, it, dcs):
             else:
                 chk.ok("R13.3", key=(c.name, fname, "semantic-neutral"))
         elif any(k.startswith("other:") for k in kinds):
-            chk.fail("R13.3", key + ":unclassified-read", f"{c.name}.{fname} (compare=False) is read in {sites}; cannot classify as cache/presentation")
+            chk.notes.append(f"R13.3: {c.name}.{fname} (compare=False) is also read in {[k[6:] for k in kinds if k.startswith('other:')]}; "
+                             f"not classifiable syntactically — interchangeability of equal objects is then covered only by R13.4")
+            chk.ok("R13.3", key=(c.name, fname, "unclassified"), nontrivial=False)
         else:
             chk.ok("R13.3", key=(c.name, fname, "+".join(sorted(kinds)) or "unused"))
     chk.analysed["uncompared_fields"] = [f"{c.name}.{f}" for c, f in fields]
